@@ -9,9 +9,12 @@ from __future__ import annotations
 
 import multiprocessing as mp
 import os
+import signal
 import sys
 import time
 import traceback
+from concurrent.futures import ProcessPoolExecutor, as_completed
+from concurrent.futures.process import BrokenProcessPool
 from collections import Counter
 from dataclasses import dataclass
 from typing import Any, Callable, Iterable, List, Optional
@@ -38,7 +41,21 @@ class HarnessError(Exception):
     pass
 
 
+class CaseTimeout(BaseException):
+    """Raised (from a SIGPROF handler) inside a case that has used more CPU time than CASE_CPU_LIMIT.
+    BaseException so that an `except Exception` in the code under test cannot swallow it."""
+
+
+# CPU seconds (user + system of the worker process, NOT wall time: independent of machine load) one case may use.
+# The slowest legitimate cases use a few tens of CPU seconds; a case beyond this is a non-terminating computation.
+CASE_CPU_LIMIT = float(os.environ.get("VERIF_CASE_CPU_LIMIT", "900"))
+
 _SLICES: List[Slice] = []
+_ABORT = None  # shared flags, one per slice: set once a case of that slice did not terminate (other shards stop early)
+
+
+def _on_sigprof(signum, frame):  # pylint: disable=unused-argument
+    raise CaseTimeout()
 
 
 def _judge(sl: Slice, case: Any) -> R:
@@ -47,6 +64,17 @@ def _judge(sl: Slice, case: Any) -> R:
         if r is None:
             r = R()
         return r
+    except CaseTimeout as e:
+        if core.in_repo_tb(e):
+            site = core.raise_site(e)
+            return R(outcome="did-not-terminate").fail(
+                f"non-termination:cpu>{int(CASE_CPU_LIMIT)}s@{site}",
+                f"case {case!r} used more than {int(CASE_CPU_LIMIT)} CPU seconds and was interrupted inside the tree under "
+                f"verification at {site}",
+            )
+        raise HarnessError(
+            f"case {case!r} of slice {sl.name} exceeded {int(CASE_CPU_LIMIT)} CPU seconds in harness code:\n{traceback.format_exc()}"
+        ) from None
     except Exception as e:  # pylint: disable=broad-except
         if core.in_repo_tb(e):
             site = core.raise_site(e)
@@ -54,9 +82,11 @@ def _judge(sl: Slice, case: Any) -> R:
                 f"unexpected-exception:{type(e).__name__}@{site}",
                 f"{type(e).__name__}: {e} (raised inside the tree under verification at {site})",
             )
+        # `from None`: the original exception object may not survive pickling back to the parent (e.g. rasterio's
+        # CPLE_* errors have a read-only `args`), which would hang the pool; its text is in the message
         raise HarnessError(
             f"harness error in slice {sl.name} case {case!r}:\n{traceback.format_exc()}"
-        ) from e
+        ) from None
 
 
 def _run_shard(args):
@@ -72,10 +102,24 @@ def _run_shard(args):
     nfail_keys: Counter = Counter()
     samples = []
     t0 = time.time()
+    timed = hasattr(signal, "SIGPROF") and CASE_CPU_LIMIT > 0
+    if timed:
+        signal.signal(signal.SIGPROF, _on_sigprof)
     for i, case in enumerate(sl.gen()):
         if i % nshards != shard:
             continue
-        r = _judge(sl, case)
+        if _ABORT is not None and _ABORT[si]:
+            outcomes["skipped:slice-aborted-after-non-termination"] += 1
+            continue
+        if timed:
+            signal.setitimer(signal.ITIMER_PROF, CASE_CPU_LIMIT)
+        try:
+            r = _judge(sl, case)
+        finally:
+            if timed:
+                signal.setitimer(signal.ITIMER_PROF, 0)
+        if _ABORT is not None and r.outcome == "did-not-terminate":
+            _ABORT[si] = 1
         evals += 1
         outcomes[r.outcome] += 1
         if r.counts:
@@ -110,8 +154,9 @@ def _run_shard(args):
 
 def run_slices(ctx: Ctx, slices: List[Slice], pool_jobs: Optional[int] = None) -> None:
     """Enumerate every slice completely on `jobs` worker processes and fold results into ctx."""
-    global _SLICES  # pylint: disable=global-statement
+    global _SLICES, _ABORT  # pylint: disable=global-statement
     _SLICES = slices
+    _ABORT = mp.get_context("fork").Array("b", max(1, len(slices)), lock=False)
     jobs = pool_jobs or ctx.jobs
     tasks = []
     for si, sl in enumerate(slices):
@@ -129,9 +174,19 @@ def run_slices(ctx: Ctx, slices: List[Slice], pool_jobs: Optional[int] = None) -
         results = [_run_shard(t) for t in tasks]
     else:
         mpctx = mp.get_context("fork")
-        with mpctx.Pool(jobs) as pool:
-            for res in pool.imap_unordered(_run_shard, tasks, chunksize=1):
-                results.append(res)
+        # ProcessPoolExecutor, not mp.Pool: a worker that dies (a crash inside a native library) breaks the pool with an
+        # exception instead of leaving the parent waiting for ever
+        ex = ProcessPoolExecutor(max_workers=jobs, mp_context=mpctx)
+        try:
+            futs = [ex.submit(_run_shard, t) for t in tasks]
+            for f in as_completed(futs):
+                results.append(f.result())
+        except BrokenProcessPool as e:
+            raise HarnessError(
+                f"a worker process died while running slices {[sl.name for sl in slices]} (crash in a native library or "
+                f"out of memory): {e}") from None
+        finally:
+            ex.shutdown(wait=True, cancel_futures=True)
     # fold deterministically (by slice, then by content) so output does not depend on timing
     results.sort(key=lambda r: (r["si"], r["evals"], sorted(r["fail_counts"].items())))
     for res in results:
